@@ -6,3 +6,10 @@ use super::*;
 pub fn kani_cache() -> ContinuityStreamCache {
     ContinuityStreamCache { dir: PathBuf::new() }
 }
+
+pub fn kani_cache_at(dir: PathBuf) -> ContinuityStreamCache {
+    ContinuityStreamCache { dir }
+}
+pub fn kani_cache_dir(cache: &ContinuityStreamCache) -> &Path {
+    &cache.dir
+}
